@@ -139,6 +139,7 @@ type tcase struct {
 	Prefix string `json:"prefix"`            // how far establishment got
 	Second string `json:"second"`            // none | seq:<path> | parked:<path>
 	ParkAt string `json:"park_at,omitempty"` // parked: the harness-owned fake in which the first termination is held
+	Fault  string `json:"fault,omitempty"`   // one release operation of the (first) termination is made to fail once
 	P      params `json:"p"`
 }
 
@@ -177,6 +178,8 @@ type params struct {
 	CoABy    string `json:"coa_by,omitempty"` // id | ip | mac
 	PADTRetr int    `json:"padt_retries,omitempty"`
 	Hostname string `json:"hostname,omitempty"`
+
+	DualStack bool `json:"dual_stack,omitempty"` // submgr: the session also gets an IPv6 address
 
 	// superseded family
 	MAC2     hexb   `json:"mac2,omitempty"`      // replacement CPE
@@ -220,11 +223,56 @@ func secondPath(second string) string {
 
 // cellSpec is one (kind, path, prefix, second, parkAt) combination of the enumerated product.
 type cellSpec struct {
-	Kind, Path, Prefix, Second, ParkAt string
+	Kind, Path, Prefix, Second, ParkAt, Fault string
 }
 
 func (c cellSpec) key() string {
-	return c.Kind + "/" + c.Path + "/" + c.Prefix + "/" + c.Second + "@" + c.ParkAt
+	return c.Kind + "/" + c.Path + "/" + c.Prefix + "/" + c.Second + "@" + c.ParkAt + "!" + c.Fault
+}
+
+// faultTolerates: what a failed release operation may legitimately leave behind - the resource the failed
+// operation itself was to release, where the code under test documents no retry ("continue cleanup even if ... fails",
+// "failed to ...: logged").  Everything else must be released as if nothing had failed.
+var faultTolerates = map[string][]string{
+	"release-ipv4":        {"pool"},                    // subscriber.Manager logs the error; the allocator still holds the address
+	"release-ipv6":        {"pool6"},                   //
+	"maps":                {"cache-mac", "nat", "qos"}, // SessionTeardown: "Continue cleanup even if eBPF update fails"
+	"acct-stop":           {"acct-stop-missing"},       // dhcp.Server / SessionTeardown log a failed Stop and do not retry
+	"acct-stop-retried":   {},                          // radius.AccountingManager queues a failed Stop and retries it
+	"rm-cache-mac":        {},                          // the entry is gone already (that is why the removal fails)
+	"rm-cache-circuit-id": {},
+	"rm-nat-entry":        {},
+	"rm-qos-entry":        {},
+}
+
+// applyFault rewrites the verdicts of a case that ran with an injected release failure: what the failed operation
+// was to release is tolerated, anything else that is left is a release skipped because of the failure.
+func applyFault(tc *tcase, viol []violation) []violation {
+	if tc.Fault == "" {
+		return viol
+	}
+	tol := map[string]bool{}
+	for _, r := range faultTolerates[tc.Fault] {
+		tol[r] = true
+	}
+	var out []violation
+	for _, v := range viol {
+		parts := strings.Split(v.Sig, "/")
+		resource := parts[len(parts)-1]
+		if tol[resource] {
+			continue
+		}
+		path := tc.Path
+		if len(parts) >= 4 {
+			path = parts[2]
+		}
+		op := tc.Fault
+		if op == "acct-stop-retried" {
+			op = "acct-stop"
+		}
+		out = append(out, violation{Sig: "C16/" + tc.sigKind() + "/" + path + "/release-skipped-after-" + op + "/" + resource, Msg: "(after an injected failure of " + tc.Fault + ") " + v.Msg})
+	}
+	return out
 }
 
 // genCommon draws the parameters every kind shares.
@@ -322,6 +370,7 @@ func check(outer *testing.T, t vstat.Fataler, tc *tcase) {
 	if res.harness != "" {
 		outer.Fatalf("INCONCLUSIVE: harness failure in case %s: %s\n%s", jsonOf(tc), res.harness, strings.Join(res.log, "\n"))
 	}
+	res.viol = applyFault(tc, res.viol)
 	history := func() string { return "case: " + jsonOf(tc) + "\n" + strings.Join(res.log, "\n") }
 	var kfcls []string
 	if os.Getenv("C16_TRACE") != "" {
@@ -366,6 +415,9 @@ func check(outer *testing.T, t vstat.Fataler, tc *tcase) {
 	if nt {
 		cls = append(cls, "nontrivial")
 	}
+	if tc.Fault != "" {
+		cls = append(cls, "fault:"+tc.Kind+"/"+tc.Fault)
+	}
 	if len(res.viol) == 0 {
 		cls = append(cls, "verdict:clean")
 	} else {
@@ -376,7 +428,7 @@ func check(outer *testing.T, t vstat.Fataler, tc *tcase) {
 	cellMu.Lock()
 	cellCounts[tc.cell()]++
 	pairCounts[tc.Kind+"/"+tc.Path]++
-	fullCounts[cellSpec{tc.Kind, tc.Path, tc.Prefix, tc.Second, tc.ParkAt}.key()]++
+	fullCounts[cellSpec{tc.Kind, tc.Path, tc.Prefix, tc.Second, tc.ParkAt, tc.Fault}.key()]++
 	cellMu.Unlock()
 	vstat.Case(nt, vstat.Hash(jsonOf(tc)), func() any {
 		return map[string]any{"case": tc, "held": res.held, "violations": res.viol}
